@@ -485,6 +485,23 @@ let run_prog_gen (kept : bool) dt (prog : string) (impl : string) : outcome =
                 let gn = if gn = "other" then "L" ^ String.concat "," (List.map (layout_tag before) ids) else gn in
                 (* TensorMul with negative axes (named in the glue: the Coq guard has no case for it) *)
                 let gn = if f.(0) = "tmul" && List.exists (fun x -> x < 0) (ints f.(3) @ ints f.(4)) then "negative-axes" else gn in
+                (* two guards found by the proof of zhistory_refines (RefineProofs2.v: zextra_ok) and named
+                   here: in-place operations on PARTLY overlapping operands, and comparisons of a
+                   one-element view over a wider window *)
+                let gn = if gn <> "UNGUARDED" then gn else begin
+                    let dense i = get_t before (nat_of_int i) in
+                    let unsafe_mode = Array.exists (fun x -> x = "unsafe") f in
+                    match f.(0), ids with
+                    | ("bin" | "cmp"), [a; b] when unsafe_mode && a <> b ->
+                      (match dense a, dense b with
+                       | Some da, Some db when overlaps da db -> "operands-overlap"
+                       | _ -> gn)
+                    | ("cmp" | "cmps"), (a :: _) ->
+                      (match dense a with
+                       | Some da when int_of_z (size da.d_ap.shp) = 1 && int_of_z da.d_len > 1 -> "len-one"
+                       | _ -> gn)
+                    | _ -> gn
+                  end in
                 (* a divergence at a step whose own guard holds, AFTER a step outside the guarded domain:
                    the class is that earlier step's (symptom "latent") *)
                 let tainted = gn = "UNGUARDED" && !last_taint <> "" in
